@@ -417,8 +417,12 @@ def impl_make(obj):
         return ("err", canon_err(e))
 
 
-def impl_fn(obj, calls, limit_s=10):
-    """calls: [(ctime_float, utc_us, off_us, text, tell)] -> ("ok", bits) | ("err", kind) | ("hang", i)"""
+HANGS = {"n": 0}
+
+
+def impl_fn(obj, calls, limit_s=5):
+    """calls: [(ctime_float, utc_us, off_us, text, tell)]
+    -> ("ok", bits) | ("err", kind at construction) | ("raised", kind, i) | ("hang", i)"""
     made = impl_make(obj)
     if made[0] == "err":
         return made
@@ -434,7 +438,10 @@ def impl_fn(obj, calls, limit_s=10):
                     f.size = tell
                     bits.append(bool(fn(make_message(text, utc, off), f)))
         except Hang:
+            HANGS["n"] += 1
             return ("hang", len(bits))
+        except Exception as e:  # noqa – a logging call that raises is an observation, not an infrastructure error
+            return ("raised", canon_err(e), len(bits))
     return ("ok", "".join("1" if b else "0" for b in bits))
 
 
@@ -471,7 +478,7 @@ class FrozenClock:
                                             time=pydt.time, date=pydt.date)
 
 
-def impl_sink(obj, ctime0_ts, pre_bytes, msgs, encoding="utf8", limit_s=20):
+def impl_sink(obj, ctime0_ts, pre_bytes, msgs, encoding="utf8", limit_s=5):
     """real FileSink in a scratch directory.  msgs: [(utc_us, off_us, text)].  The clock is frozen at each
     message's instant; creation times live in a dict (get_ctime/set_ctime patched).
     -> ("ok", [files as lists of message indices, oldest first], [sizes]) | ("err", kind) | ("hang", i)"""
@@ -499,7 +506,10 @@ def impl_sink(obj, ctime0_ts, pre_bytes, msgs, encoding="utf8", limit_s=20):
                             clock.now_us = utc
                             sink.write(make_message(text, utc, off))
                 except Hang:
+                    HANGS["n"] += 1
                     return ("hang", i)
+                except Exception as e:  # noqa
+                    return ("raised", canon_err(e), i)
                 finally:
                     try:
                         sink.stop()
@@ -567,7 +577,11 @@ def run_fn_case(ctx, drv_lines, cases, case):
            "spelling": obj if isinstance(obj, str) else repr(obj), "expected": exp}
     if got[0] == "hang":
         ctx.violation("rotation %r: call %d never returns (catch-up loop does not terminate)" % (rep["spelling"], got[1]),
-                      rep, key=case.get("key"))
+                      dict(rep, observed=list(got)), key=case.get("key"))
+        return
+    if got[0] == "raised":
+        ctx.violation("rotation %r: call %d raises %s" % (rep["spelling"], got[2], got[1]),
+                      dict(rep, observed=list(got)), key=case.get("key"))
         return
     if exp is not None and got != exp:
         ctx.violation("rotation %r, creation %s, offset %s: expected %s, observed %s"
@@ -625,8 +639,11 @@ def run(ctx):
                                         "key": c.get("key")})
 
     # ---- stream 1: structured function-level cases judged by the executable spec
-    n1 = ctx.n(5000, 400000) * boost
+    n1 = ctx.n(15000, 200000) * boost
     for i in range(n1):
+        if HANGS["n"] >= 4:
+            ctx.note("function-level stream stopped early: the implementation hung %d times" % HANGS["n"])
+            break
         meaning = gen_meaning(rng)
         sem = normal(meaning)
         obj, token, how = render(rng, meaning)
@@ -665,8 +682,10 @@ def run(ctx):
     alpha = ["1", "2", "0", "5", ".", ":", " ", " ", "e", "-", "+", ",", "h", "d", "s", "m", "w", "at", " at ", "monday",
              "sunday", "w3", "am", "pm", "b", "k", "K", "i", "B", "M", "G", "min", "ms", "us", "y", "E", "12:00", "daily",
              "weekly", "\t", "T", "hour", "week", "1.5", "00", "days"]
-    n3 = ctx.n(2500, 150000) * boost
+    n3 = ctx.n(6000, 60000) * boost
     for i in range(n3):
+        if HANGS["n"] >= 6:
+            break
         s = "".join(rng.choice(alpha) for _ in range(rng.range(1, 6)))
         token = "S" + enc(s)
         off = rng.choice(OFFSETS)
@@ -727,16 +746,20 @@ def run(ctx):
             what = "forward_day(%s)" % nt
         else:
             w = rng.range(0, 6)
-            r = us_of(Rotation.forward_weekday(nt, w))
+            try:
+                with time_limit(3):
+                    r = us_of(Rotation.forward_weekday(nt, w))
+            except Hang:
+                r = None
             exp = t + ((w - nt.weekday() - 1) % 7 + 1) * DAY
             plines.append("stepw %d %d" % (w, t))
             what = "forward_weekday(%s, %d)" % (nt, w)
         ctx.case(("step", which, t))
         ctx.stat("step_kernels")
         if r != exp:
-            ctx.violation("%s = %s, expected %s" % (what, naive_of(r), naive_of(exp)),
+            ctx.violation("%s = %s, expected %s" % (what, naive_of(r) if r is not None else "(never returns)", naive_of(exp)),
                           {"stream": "step", "line": plines[-1], "expected": exp})
-        pexp.append(("ok %d" % r, what))
+        pexp.append(("ok %s" % r, what))
     for s in ["monday at 13:00", "w0 at 11", "sunday", "W6", "13:00", "1:02:03.5", " tuesday  AT  7 ", "w3", "12",
               "23:59:59.999999", "friday at 0:00:01"] + MALFORMED:
         try:
@@ -760,7 +783,9 @@ def run(ctx):
         z = ordinal - 719163
         d = pydt.date.fromordinal(ordinal)
         cal_lines.append("civil %d" % z)
-        cal_exp.append("%d %d %d %d %d" % (d.year, d.month, d.day, d.weekday(), z))
+        first = d.replace(day=1).toordinal() - 719163
+        cal_exp.append("%d %d %d %d %d %d %d" % (d.year, d.month, d.day, d.weekday(), z, first,
+                                                 first + calendar.monthrange(d.year, d.month)[1]))
     ctx.exhaustive = not ctx.quick
 
     out = drv.run(lines + plines + cal_lines)
@@ -768,7 +793,7 @@ def run(ctx):
     for (rep, got), o in zip(cases, out):
         m = parse_out(o)
         ctx.traces_validated += 1
-        if got[0] == "hang":
+        if got[0] in ("hang", "raised"):
             continue
         if m != got:
             ndis += 1
@@ -793,7 +818,7 @@ def run(ctx):
             bad += 1
             if bad < 3:
                 ctx.broke("correspondence Py.Calendar", "expected %s got %s" % (e, o))
-    ctx.stat("calendar_days_checked", len(cal_exp))
+    ctx.stat("calendar_days_checked(CalendarMonthFact)", len(cal_exp))
 
     # ---- stream 6: sink level – a real FileSink, frozen clock, observable = messages per file
     run_sink_stream(ctx, drv, rng, boost)
@@ -825,9 +850,11 @@ def show_files(files):
 
 
 def run_sink_stream(ctx, drv, rng, boost):
-    n = ctx.n(120, 4000) * boost
+    n = ctx.n(400, 4000) * boost
     lines, expect = [], []
     for i in range(n):
+        if HANGS["n"] >= 8:
+            break
         meaning = gen_meaning(rng)
         sem = normal(meaning)
         obj, token, how = render(rng, meaning)
@@ -884,7 +911,10 @@ def replay(ctx, rep):
         calls = [(ctime_pair(c[0])[0], c[1], c[2], c[3], c[4]) for c in r["calls"]]
         got = impl_fn(obj, calls)
         eff = [(c[0], c[1], c[2], len(c[3].encode("utf8")), len(c[3]), c[4]) for c in r["calls"]]
-        m = parse_out(core.Driver(DRIVER).run([fn_line(r["token"], eff)])[0])
+        try:
+            m = parse_out(core.Driver(DRIVER).run([fn_line(r["token"], eff)])[0])
+        except core.DriverError:
+            m = ("unavailable", "the model driver does not build against this tree")
         exp = r.get("expected")
         print("rotation=%r calls=%r" % (r.get("spelling"), r["calls"]))
         print("implementation:", got)
@@ -895,7 +925,7 @@ def replay(ctx, rep):
         elif exp:
             bad = list(got) != list(exp)
         else:
-            bad = got != m
+            bad = got != m and m[0] != "unavailable"
     elif stream == "sink":
         obj = object_of_token(r["token"])
         texts = ["<%d>\n" % k for k in range(len(r["stamps"]))]
@@ -929,7 +959,11 @@ def replay(ctx, rep):
         elif p[0] == "stepd":
             v = us_of(Rotation.forward_day(naive_of(int(p[1]))))
         else:
-            v = us_of(Rotation.forward_weekday(naive_of(int(p[2])), int(p[1])))
+            try:
+                with time_limit(3):
+                    v = us_of(Rotation.forward_weekday(naive_of(int(p[2])), int(p[1])))
+            except Hang:
+                v = None
         print("%s -> %s, expected %s" % (r["line"], v, r["expected"]))
         bad = v != r["expected"]
     else:
